@@ -140,13 +140,14 @@ def cellsOf (t : Tabs) (st : SM.St) (q : Path) : List CellId :=
 def refsOf (t : Tabs) (st : SM.St) (q : Path) : List RefId :=
   (conts st .refs q).map (fun e => t.rid q e.1)
 
-/-- a name with dots is an attribute path `S.x` (`S` the path of a space from the model, or `_space`:
-the space of the formula): the slot it reads through -/
-def qualOf (q : Path) (x : String) : Option (Path × String) :=
-  match (x.splitOn ".").reverse with
-  | [] => none
-  | [_] => none
-  | y :: sp => some (if sp == ["_space"] then q else sp.reverse, y)
+/-- is `x` a spelling, in a formula of space `q`, of the attribute path to the slot `e`: `S.x` (`S` the
+path of the space from the model, with dots) or `_space.x` for the space of the formula -/
+def spelled (q : Path) (e : Path × String) (x : String) : Bool :=
+  x == ".".intercalate e.1 ++ "." ++ e.2 || (e.1 == q && x == "_space." ++ e.2)
+
+/-- the DECLARED slot the name `x` spells in space `q` (no slot declared: every name is a plain name) -/
+def qualOf (t : Tabs) (q : Path) (x : String) : Option (Path × String) :=
+  t.slots.find? (fun e => spelled q e x)
 
 /-- the payload of the model-level reference `x` -/
 def gpay (t : Tabs) (st : SM.St) (x : String) : Option Nat :=
@@ -173,10 +174,10 @@ def nsPlain (t : Tabs) (st : SM.St) (q : Path) : Ns := fun x =>
 
 /-- the binding of an attribute path: the declared slot -/
 def slotBinding (t : Tabs) (e : Path × String) : Option Binding :=
-  if t.slots.contains e then some (.ref (t.rid e.1 e.2)) else none
+  some (.ref (t.rid e.1 e.2))
 
 def nsAt (t : Tabs) (st : SM.St) (q : Path) : Ns := fun x =>
-  match qualOf q x with
+  match qualOf t q x with
   | some e => slotBinding t e
   | none => nsPlain t st q x
 
@@ -480,7 +481,7 @@ def nsNames (st : SM.St) (q : Path) : List String :=
 
 def sameNs (t : Tabs) (st st' : SM.St) (q : Path) : Bool :=
   (nsNames st q ++ nsNames st' q ++ st.globals ++ st'.globals).all (fun x =>
-    (qualOf q x).isSome || nsAt t st q x == nsAt t st' q x)
+    (qualOf t q x).isSome || nsAt t st q x == nsAt t st' q x)
 
 def covered (t : Tabs) (st st' : SM.St) (cl : List Clear) : Bool :=
   (st.ids ++ st'.ids).all (fun q =>
@@ -497,7 +498,9 @@ def covered (t : Tabs) (st st' : SM.St) (cl : List Clear) : Bool :=
     -- a slot that denotes another reference / value than before (a reference starts or stops shadowing
     -- the model-level one, ...)
     (st.globals ++ st'.globals).all (fun x =>
-      refPay t st' q x == refPay t st q x ||
+      -- (a space that is deleted: an attribute path through it is an object-valued reference to a deleted
+      -- space - not in the machine)
+      !st'.has q || refPay t st' q x == refPay t st q x ||
         ((cellsOf t st q).all (touchedBy cl) &&
           ((refPay t st q x).isNone || cl.contains (Clear.attr (t.rid q x))))))
 
